@@ -25,8 +25,8 @@ lexer table, for the WHOLE fragment `TD.FragCreate d c` and both renderings (`d 
 without back-quote and TAB / CR / U+3000 (`nameLex`); type names plain words; the expressions in type parameters, DEFAULT, ON UPDATE,
 GENERATED with `LexLink.Leaf` leaves (`Props/C01T.lean`); every raw-source payload — comments, charset / collation / engine / row format /
 index / constraint names, USING methods, SERDE / INPUTFORMAT / OUTPUTFORMAT / LOCATION strings, property values — one of: a digit string,
-a quoted string `'…'` / `"…"` of the escape grammar (doubled quotes, backslash escapes), a back-quoted name, a plain word (`LD.srcLex`);
-TBLPROPERTIES keys quoted strings (they are written directly before `=`).  For HIVE additionally `LD.NoEqC c`: no payload contains `==`
+a quoted string `'…'` / `"…"` of the escape grammar (doubled quotes, backslash escapes), a back-quoted name, a plain word (`LD.srcLex`;
+TBLPROPERTIES keys too: they are written directly before `=`, `LD.tk_src_eq`).  For HIVE additionally `LD.NoEqC c`: no payload contains `==`
 — the Hive dialect pre-pass rewrites `==` to `=` in the WHOLE text, also inside comments (findings F-C06-1/2: a comment `'a==b'` does
 not survive print → parse for Hive; `C18.witness_hive_comment` is the evaluated witness on the model).  The exclusions of F-C18-1 (a type
 outside the shipped map: `changeTypeT … = ok c'` is a hypothesis; `C18.changeTypeT_total` gives it for catalogued types), F-C18-2 (the
@@ -263,7 +263,7 @@ def leafCB (d : Gen.D) (c : CreateTable) : Bool :=
     optB srcLexB c.engine && optB srcLexB c.defaultCharset && optB srcLexB c.collate && optB srcLexB c.rowFormat &&
     optB srcLexB c.statesPersistent && optB srcLexB c.rowFormatSerde && optB srcLexB c.rowFormatDelimited &&
     optB srcLexB c.storedAsInputformat && optB srcLexB c.outputformat && optB srcLexB c.location &&
-    c.tblproperties.all (fun p => quotedB p.name && srcLexB p.value)
+    c.tblproperties.all (fun p => srcLexB p.name && srcLexB p.value)
 
 theorem nameLex_of_B (n : String) (h : C03.nameLexB n = true) : nameLex n := by
   simp only [C03.nameLexB, List.all_eq_true, Bool.and_eq_true, bne_iff_ne, ne_eq] at h
@@ -347,7 +347,7 @@ theorem leafC_of_B (d : Gen.D) (c : CreateTable) (h : leafCB d c = true) : LeafC
     exact leafIdx_of_B i h4
   · intro p hp
     have := h21 p hp
-    exact ⟨quoted_of_B _ this.1, srcLex_of_B _ this.2⟩
+    exact ⟨srcLex_of_B _ this.1, srcLex_of_B _ this.2⟩
 
 def noEqS (s : String) : Bool := !C01.occ s.toList
 /-- `C01.noEqEq`, decidable -/
@@ -540,6 +540,12 @@ def witness_conv_eqeq : Bool :=
      | .error _ => false)
   | none => false
 #guard witness_conv_eqeq
+-- TBLPROPERTIES with keys of every payload class (quoted, plain word, digits, back-quoted), values likewise
+def hiveProps : CreateTable :=
+  { emptyCreate ⟨some "db", "t"⟩ true with
+    columns := [{ name := "a", type := ⟨"STRING", none⟩ }],
+    tblproperties := [⟨"'orc.compress'", "'SNAPPY'"⟩, ⟨"k", "v1"⟩, ⟨"b", "0"⟩, ⟨"7", "`x y`"⟩, ⟨"`q`", "\"d\""⟩] }
+#guard FragCreate .HIVE hiveProps && leafCB .HIVE hiveProps && noEqCB hiveProps && textRoundTrips .HIVE hiveProps
 /-- the hypotheses of `schema_preserved_text_full` (all on the MySQL table), evaluated -/
 def fullHyps (rp : Bool) (c : CreateTable) : Bool :=
   FragCreate .MYSQL c && leafCB .MYSQL c && noEqCB c && hiveParamsB rp c &&
